@@ -23,6 +23,7 @@ DecodeVerdict(e) ==
   ELSE IF e.err THEN "wellformed-ebp-rejected"
   ELSE IF GettersVs(e.g, p) # "" THEN "decode-" \o GettersVs(e.g, p)
   ELSE IF e.redata # e.bytes THEN "reencode-differs"
+  ELSE IF e.g_again # e.g \/ e.redata2 # e.redata THEN "encoding-changed-the-object"
   ELSE IF ~e.input_same THEN "input-modified"
   ELSE ""
 \* the value of the last call of setter f in the builder history (<<>> if never called)
@@ -59,6 +60,7 @@ BuildVerdict(e) ==
   LET b == e.bytes IN
   IF Len(b) < 3 THEN "build-too-short"
   ELSE IF b[2] # Len(b) - 2 THEN "build-length-byte"
+  ELSE IF e.g1_again # e.g1 \/ e.bytes_again # b THEN "build-encoding-changed-the-object"
   ELSE IF IntendedNotReflected(e) # "" THEN "build-setter-not-reflected-" \o IntendedNotReflected(e)
   ELSE LET p == Parse(b) IN
   IF ~p.ok THEN "build-not-wellformed"
